@@ -530,7 +530,12 @@ class IsExecutorNeeded(DeclContract):
     def ensures(self, it, pre, post, a, res):
         if not (isinstance(res, tuple) and len(res) == 2):
             return [('returns-a-pair', False)]
-        return []
+        g = it.st.ghost
+        if 'ghost:proc_exit' not in g:
+            return []
+        # C17: which component is which.  The caller stores them in DAG.is_process_pool_needed / is_thread_pool_needed in this order.
+        return [('returns-(process pool needed, thread pool needed)-in-this-order|C17', z3.And(
+            B(res[0]) == B(g['ghost:proc_exit']), B(res[1]) == B(g['ghost:thr_exit'])))]
 
     @property
     def loops(self):
@@ -550,8 +555,14 @@ class IsExecutorNeeded(DeclContract):
                 out.append(('thread-flag-raised-exactly-for-other-sync-nodes', thr1 == z3.Or(thr0, z3.And(is_sync, z3.Not(in_proc)))))
             return out
 
+        def remember_flags(ctx):
+            # no invariant of its own: records the flags as they stand at the loop head / exit (for the postcondition)
+            ctx.st.ghost['ghost:proc_exit'] = ctx.var('is_process_pool_needed')
+            ctx.st.ghost['ghost:thr_exit'] = ctx.var('is_thread_pool_needed')
+            return []
+
         sp = LoopSpec(text='self._node_map.values()', havoc={'is_process_pool_needed': 'bool', 'is_thread_pool_needed': 'bool'},
-                      body_post=body_post)
+                      inv=remember_flags, body_post=body_post)
         orig = sp._havoc
 
         def havoc_and_remember(it, env):
@@ -817,7 +828,7 @@ class Traverse(DeclContract):
                     out.append(('implicit-input-link-only-for-nodes-without-marks|C15', z3.And(lst.len == 0, inp != cur)))
                     out.append(('implicit-link-goes-from-the-input-node-to-this-node|C15', z3.And(
                         T(p.a.source_node_id, st) == NODE_ID(inp), T(p.a.dest_node_id, st) == NODE_ID(cur))))
-                    out.append(('the-input-node-is-scheduled|C15', visited_has(it, ctx.var('visited'), inp)))
+                    out.append(('the-input-node-is-scheduled|C15,C16', visited_has(it, ctx.var('visited'), inp)))
                 elif not any(e.kind == 'loop_summary' for e in effs):
                     out.append(('a-node-without-marks-gets-the-implicit-input-link|C15', z3.Or(lst.len != 0, inp == cur)))
             return out
